@@ -1,5 +1,5 @@
 SPECIFICATION Spec
 CONSTANTS
-  Sizes = {1, 2, 7}
+  Sizes = {1, 7}
   ArgModes = {"files", "dir"}
 INVARIANT Emit
